@@ -233,6 +233,33 @@ def run(ctx):
         ctx.ob('STALE-FRAMES', row[1], ok, g.loc(g.body), 'write-open of %s: sf.frames %s' % (row[1], 'is reset on the open path' if ok else 'is NEVER assigned on the write-open path (caller value would reach the header)'), None)
 
 
+    # ------------------------------------------------------------------ DATALEN-IDIOM
+    ctx.rule('DATALEN-IDIOM', 'every codec reader init (*_init / *_reader_init) that turns psf->datalength into a block or frame count first re-derives it from the end of the audio data: an assignment '
+             '`psf->datalength = psf->dataend ... - psf->dataoffset` precedes the first use (the container parser counts the pad byte of an odd data chunk into datalength; with 65-byte '
+             'GSM blocks that byte became one more block of 320 frames). Frozen: PAF has no chunks after the data; MS ADPCM takes the floor for the frame count', floor=10)
+    DL_FROZEN = {'paf24_init': 'the PAF container has nothing after the audio data and never sets psf->dataend; no pad byte exists',
+                 'wavlike_msadpcm_init': 'psf->sf.frames = (datalength / blocksize) * samplesperblock takes the floor: one pad byte cannot add a block to the frame count (blocks + 1 only sizes the read-ahead)'}
+    n_dl = 0
+    for f in sorted(prog.lib_fns(), key=lambda f: (f.file, f.line)):
+        if not (f.name.endswith('_init') or 'reader_init' in f.name):
+            continue
+        al_ = assigned_lvalues(f)
+        lhs_ = {f.unwrap(f.N[a['kids'][0]])['id'] for lv, a, r in al_ if lv == 'psf->datalength'}
+        reads_ = [n for n in f.walk() if n['k'] == 'MemberExpr' and n['n'] == 'datalength' and f.s(n) == 'psf->datalength' and n['id'] not in lhs_]
+        if not reads_:
+            continue
+        n_dl += 1
+        asg_ = [a for lv, a, r in al_ if lv == 'psf->datalength' and r is not None and 'dataend' in f.s(r)]
+        # reads inside the re-deriving statement itself (or its guard) do not count
+        first_ = [n for n in reads_ if not any(f.within(n, a) for a in asg_) and not any(anc['k'] == 'IfStmt' and 'dataend' in f.s(anc['cond']) and f.within(n, f.N[anc['cond']]) for anc in f.ancestors(n))]
+        ok = bool(asg_) and all(any((a['l'], a['c']) < (n['l'], n['c']) for a in asg_) for n in first_)
+        if not ok and f.name in DL_FROZEN:
+            ctx.ob('DATALEN-IDIOM', f.name, True, f.loc(f.body), 'frozen: %s' % DL_FROZEN[f.name], None)
+            continue
+        ctx.ob('DATALEN-IDIOM', f.name, ok, f.loc(asg_[0]) if asg_ else f.loc(reads_[0]), 'psf->datalength is re-derived from psf->dataend before it is used' if ok else
+               'psf->datalength is used as the container left it: a pad byte after an odd data chunk (or anything else the parser counted in) becomes part of the audio - one phantom block', None)
+    ctx.require(n_dl >= 10, 'only %d codec inits that use psf->datalength found' % n_dl)
+
     # ------------------------------------------------------------------ CODEC-ID
     from engine.arms import all_arms
     ctx.rule('CODEC-ID', 'TABLE-AGREE: for each writer arm keyed by SF_FORMAT_<subformat> that references a named encoding code c (WAVE_FORMAT_*, MSGUID_SUBTYPE_*, AU_ENCODING_*, *_MARKER), '
